@@ -159,7 +159,7 @@ def run(ctx):
     ctx.level = "model_checking"
     sc.frontend_model(ctx)
     # E1: the property predicates as invariants of the composite (spec/MC_Rapid.tla)
-    mcrapid.check(ctx, ['NoCrash', 'StreamOwnerIsReserver', 'OkHasBody', 'NoGhostInvoke'], extra_configs=('two',))
+    mcrapid.check(ctx, ['NoCrash', 'StreamOwnerIsReserver', 'OkHasBody', 'NoGhostInvoke'], extra_configs=('two',) if ctx.quick else ('two', 'twox'))
     ctx.assumptions += sc.ASSUME
     sc.run_families(ctx, scenarios(ctx), "second-caller")
     sc.run_families(ctx, fe_scenarios(ctx), "frontend-second")
